@@ -22,7 +22,8 @@ class P(DockProp):
             "unwrapped values (float addition is not associative), binary operations under an outer aggregation, multi-step range queries. Every query is evaluated under ALL "
             "completion orders of the concurrent ContainerLogs calls (quick: up to 6; thorough: all n! up to 4 containers, 30 of the 120 for 5) and repeated three times per order (each evaluation "
             "re-randomises Go's map iteration); demanded: all evaluations return the SAME streams / series in the SAME order with the same values bit for bit; log queries equal "
-            "the exact model. Rendering (C15) is a function of that list, so byte-identical output follows.")
+            "the exact model. Rendering (C15) is a function of that list, so byte-identical output follows. One kind in eight makes one container's log unopenable (mostly the first listed): "
+            "under every completion order the evaluation fails, no per-container request is still running when it returns (the fake daemon counts them), and every opened reader is closed.")
 
     def gen(self, rng, tier):
         n = {"quick": 110, "thorough": 700, "search": 300}[tier]
@@ -59,8 +60,20 @@ class P(DockProp):
         elif nc > 4:
             rng.shuffle(perms)
             perms = perms[:30]          # 5 containers: a sample of the 120 orders (the Coq evaluation of 360 runs per case is too slow)
-        kind = rng.choice(["loglimit", "loglimit", "log", "topk", "fsum", "binagg", "range"])
+        kind = rng.choice(["loglimit", "loglimit", "log", "topk", "fsum", "binagg", "range", "openfail"])
         sel = [C14.eqv("tier", rng.choice(["x", "y"]))] if rng.random() < 0.4 else [dgen.matcher(rng, ctrs, "container_name")]
+        failing = kind == "openfail"
+        if failing:
+            # one container's log cannot be opened (mostly the first listed one): under every completion order the evaluation fails, every
+            # other request has been joined when it returns and whatever was opened is closed
+            kind = "log"
+            chosen = dgen.selected(ctrs, sel)
+            if len(chosen) < 2:
+                sel = [C14.eqv("tier", ctrs[0].labels["tier"])]
+                ctrs[1].labels["tier"] = ctrs[0].labels["tier"]
+                chosen = dgen.selected(ctrs, sel)
+            fc = chosen[0] if rng.random() < 0.7 else rng.choice(chosen)
+            fc.fault = ("open",)
         start, end = T0 - S, T0 + 4 * S
         evals = []
         if kind in ("log", "loglimit"):
@@ -72,7 +85,7 @@ class P(DockProp):
             for rel in perms:
                 for rep in range(3):
                     evals.append({"q": b64e(q), "qcoq": "DQLog (%s) %s" % (pipe_coq, cZ(limit)), "limit": limit, "start": start, "end": end, "step": 0, "release": rel,
-                                  "exp_selected": [c.id for c in dgen.selected(ctrs, sel)], "exp_opts": {}, "must_err": False, "must_ok": True})
+                                  "exp_selected": [c.id for c in dgen.selected(ctrs, sel)], "exp_opts": {}, "must_err": failing, "must_ok": not failing})
         else:
             orc = oracles_coq(logfmt=egen.dedup([(line, "(%s,false)" % clist("(%s,%s)" % (cbytes(k), cbytes(v)) for k, v in self.lf(line))) for c in ctrs for _, line in c.recs]))
             lf = m.g.st_logfmt(labels=["v"])
@@ -97,8 +110,8 @@ class P(DockProp):
                     evals.append({"q": b64e(m.text(e)), "qcoq": "DQMetric (%s)" % e["coq"], "limit": 0, "start": st, "end": en, "step": step, "release": rel,
                                   "exp_selected": [c.id for c in dgen.selected(ctrs, sel)], "exp_opts": {}, "must_err": False, "must_ok": True})
         same = [[0, k] for k in range(1, len(evals))]
-        return {"kind": kind, "ctrs": [c.json() for c in ctrs], "ctrs_coq": clist(c.coq() for c in ctrs), "ctrs_intended_coq": clist(c.coq(False) for c in ctrs),
-                "list_fail": False, "oracle": orc, "evals": evals, "same": same, "faults": [], "raw_order": True,
+        return {"kind": "openfail" if failing else kind, "ctrs": [c.json() for c in ctrs], "ctrs_coq": clist(c.coq() for c in ctrs), "ctrs_intended_coq": clist(c.coq(False) for c in ctrs),
+                "list_fail": False, "oracle": orc, "evals": evals, "same": same, "faults": ["open"] if failing else [], "raw_order": True,
                 "summary": ["%s recs=%s labels=%s" % (c.id, [(t - T0) // S for t, _ in c.recs], c.labels) for c in ctrs], "note": "kind=%s orders=%d x3" % (kind, len(perms))}
 
     @staticmethod
